@@ -37,7 +37,17 @@ def arg_py(pg, a):
     if isinstance(content, list):
       return pg.List(content, value_spec=spec, allow_partial=a[2])
     return pg.Dict(content, value_spec=spec, allow_partial=a[2])
+  if a and a[0] == 'untyped':
+    # an UNTYPED pg.List / pg.Dict (no value spec yet): it validates like the plain value, but
+    # `custom_apply` binds it to the field's spec before its content is validated
+    content = tv.to_py(a[1])
+    c = pg.List(content) if isinstance(content, list) else pg.Dict(content)
+    _UNTYPED.append(c)
+    return c
   return tv.to_py(a)
+
+
+_UNTYPED = []
 
 
 def run_list_op(pg, lst, op):
@@ -191,6 +201,8 @@ class C03(Prop):
       elem = g.spec(0)
       if rng.chance(0.12):
         elem = {'k': 'obj', 'cls': 4, 'n': 0}       # elements are symbolic objects with nested children
+      elif rng.chance(0.08):
+        elem = self.conv_union(rng, g)
       elif elem['k'] not in ATOM_KINDS:
         continue
       elif rng.chance(0.1):
@@ -264,7 +276,25 @@ class C03(Prop):
         ops.append(['rebind', ent])
       else:
         ops.append([k])
-    return {'kind': 'list', 'spec': spec, 'items': items, 'ops': ops}
+    case = {'kind': 'list', 'spec': spec, 'items': items, 'ops': ops}
+    if rng.chance(0.08):
+      case['bind'] = True                      # pg.List(items).use_value_spec(spec)
+      if items and rng.chance(0.5):
+        items[rng.below(len(items))] = g.near_miss(elem)
+    return case
+
+  def conv_union(self, rng, g):
+    """Union[Float(range), ..., Callable()]: the candidate without value type switches the Union's own type
+    check off, so an int reaches the Float candidate only through the converter fallback of
+    `Union._apply` (which must still run that candidate's range check)."""
+    lo, hi = g.bounds(-2, 6)
+    if lo is None and hi is None:
+      hi = rng.randint(0, 3)
+    fc = {'k': 'float', 'lo': None if lo is None else tv.fl(lo, 0)[1:], 'hi': None if hi is None else tv.fl(hi, 0)[1:], 'n': 0}
+    cands = [fc, {'k': 'callable', 'n': 0}]
+    if rng.chance(0.5):
+      cands.insert(rng.below(3), {'k': 'str', 'rx': None, 'n': 0})
+    return {'k': 'union', 'cands': cands, 'n': 0}
 
   def freeze_optional(self, g, fd):
     """Makes an atom field both noneable and frozen at a non-None value (`Str().noneable().freeze('a')`)."""
@@ -357,7 +387,13 @@ class C03(Prop):
     def norm(k, v):
       # stated assumption: equal dicts come in equal key order where a frozen default is compared
       for fdv in frozen_default.get(k, []):
-        if canon(v) == canon(fdv):
+        same = canon(v) == canon(fdv)
+        if not same and v and v[0] == 'd' and fdv and fdv[0] == 'd':
+          try:
+            same = tv.to_py(v) == tv.to_py(fdv)       # Python equality: key order and 1 == 1.0 do not matter
+          except Exception:   # pylint: disable=broad-except
+            same = False
+        if same:
           return copy.deepcopy(fdv)
       return v
     items = [[f[0][1], norm(f[0][1], g.valid(f[1]))] for f in fields if not (f[1].get('d') is not None and rng.chance(0.3))]
@@ -421,8 +457,11 @@ class C03(Prop):
       for nm in names:
         # field kinds: atoms (some frozen + optional), Object-typed, and a guaranteed share of
         # container-typed fields (list / dict with schema / Union[container, Str])
-        shape = rng.weighted([(30, 'any'), (8, 'frozen-optional'), (14, 'object'), (16, 'list'), (16, 'dict'), (16, 'union')])
+        shape = rng.weighted([(30, 'any'), (8, 'frozen-optional'), (14, 'object'), (16, 'list'), (16, 'dict'), (16, 'union'),
+                              (8, 'conv-union')])
         fd = g.spec(rng.weighted([(3, 0), (3, 1)]))
+        if shape == 'conv-union':
+          fd = self.conv_union(rng, g)
         if shape in ('list', 'dict', 'union'):
           inner = None
           for _try in range(20):
@@ -521,6 +560,11 @@ class C03(Prop):
         a = typed_arg(fd)
         if a is not None:
           return a
+      if container_desc(fd) is not None and rng.chance(0.25):
+        cd = container_desc(fd)
+        v = g.valid(cd) if rng.chance(0.5) else g.near_miss(cd)
+        if v and v[0] in ('l', 'd'):
+          return ['untyped', v]
       c = rng.below(20)
       if c < 11:
         return g.valid(fd)
@@ -580,10 +624,29 @@ class C03(Prop):
           op = [c, kvs]
         else:
           op = [c]
+      if (partial or scope) and '"untyped"' in json.dumps(op):
+        # (an untyped pg.Dict keeps its own allow_partial=False while the partial parent fills in
+        # MISSING_VALUE for its required keys: outside the model, which validates it like the plain value)
+        def plain(x):
+          if isinstance(x, list):
+            if x and x[0] == 'untyped':
+              return x[1]
+            return [plain(y) for y in x]
+          return x
+        op = plain(op)
       ops.append([op, scope])
       if '"typed"' in json.dumps(op) and rng.chance(0.35):
         ops.append([copy.deepcopy(op), scope])      # the same write retried (a rejected write must stay rejected)
-    return {'kind': kind, 'spec': spec, 'partial': partial, 'items': items, 'ops': ops}
+    case = {'kind': kind, 'spec': spec, 'partial': partial, 'items': items, 'ops': ops}
+    if kind == 'dict' and not partial and rng.chance(0.1):
+      case['bind'] = True                      # pg.Dict(items).use_value_spec(spec)
+      plain = [it for it in items if not (it[1] and it[1][0] in ('typed', 'untyped'))]
+      if plain and rng.chance(0.5):
+        it = rng.choice(plain)
+        fd = field_of(it[0])
+        if fd is not None:
+          it[1] = g.near_miss(fd)
+    return case
 
   # -- execution ---------------------------------------------------------------------------
   def all_values(self, case):
@@ -615,6 +678,8 @@ class C03(Prop):
           sst = tv.readback(tv.build(x[1]))
           states.append(sst)
           return ['typed', sst, x[2], x[3]]
+        if x and x[0] == 'untyped':
+          return x[1]                 # the model: validated exactly like the plain value
         return [conv(y) for y in x]
       return x
     ops = conv(case['ops'])
@@ -668,7 +733,17 @@ class C03(Prop):
       return ok
 
     try:
-      lst = pg.List([tv.to_py(v) for v in case['items']], value_spec=spec)
+      if case.get('bind'):
+        # an untyped pg.List adopts the spec afterwards (`use_value_spec`): the same validation as
+        # construction, and a refused spec must not stay bound
+        lst = pg.List([tv.to_py(v) for v in case['items']])
+        try:
+          lst.use_value_spec(spec)
+        except (TypeError, ValueError, KeyError):
+          out['bound_after_reject'] = lst.value_spec is not None
+          raise
+      else:
+        lst = pg.List([tv.to_py(v) for v in case['items']], value_spec=spec)
     except (TypeError, ValueError, KeyError) as e:
       out['model'] = {'construct': type(e).__name__, 'steps': []}
       return out
@@ -719,6 +794,13 @@ class C03(Prop):
         cls = pg.members([(f.key, f.value) for f in schema.values()])(
             type('C03Obj%d' % _CLS_COUNTER[0], (pg.Object,), {}))
         target = cls(allow_partial=case['partial'], **kwargs)
+      elif case.get('bind'):
+        target = pg.Dict(kwargs)
+        try:
+          target.use_value_spec(spec, allow_partial=case['partial'])
+        except (TypeError, ValueError, KeyError):
+          out['bound_after_reject'] = target.value_spec is not None
+          raise
       else:
         target = pg.Dict(kwargs, value_spec=spec, allow_partial=case['partial'])
     except (TypeError, ValueError, KeyError) as e:
@@ -729,12 +811,22 @@ class C03(Prop):
     for op, scope in case['ops']:
       err = None
       ctx = pg.allow_partial(scope) if scope is not None else contextlib.nullcontext()
+      del _UNTYPED[:]
       pyop = prebuild(pg, op)
       try:
         with ctx:
           run_dict_op(pg, target, pyop, is_object)
       except (TypeError, ValueError, KeyError, IndexError, pg.WritePermissionError) as e:
         err = type(e).__name__
+      # a container offered untyped and refused must not come back bound to the spec that refused it
+      stale = False
+      for c in _UNTYPED:
+        if c.value_spec is not None and c.sym_parent is None and err is not None:
+          try:
+            c.value_spec.apply(tv.to_py(tv.from_py(c)))
+          except (TypeError, ValueError, KeyError):
+            stale = True
+      out.setdefault('stale_bound', []).append(stale)
       # every symbolic member still knows its place (parent and key), also after a rejected write
       att = True
       for k, v in target.sym_items():
@@ -799,6 +891,10 @@ class C03(Prop):
         fails.append({'signature': sig, 'what': what})
 
     if isinstance(m['construct'], str):
+      if out.get('bound_after_reject'):
+        add('bound-to-rejected-spec:use_value_spec',
+            'use_value_spec raised %s, yet the %s stays bound to the spec its content %s violates' % (
+                m['construct'], kind, json.dumps(case['items'])))
       if m['construct'] not in SCHEMA_ERRS:
         add('construct-error-class:' + m['construct'], 'constructor raised ' + m['construct'])
       return
@@ -824,6 +920,10 @@ class C03(Prop):
         add('member-detached:%s:%s' % (kind, op[0]),
             'after %s (%s) a symbolic member of the %s no longer has it as parent / its key as path' % (
                 json.dumps(op), s['err'] or 'ok', kind))
+      if kind != 'list' and (out.get('stale_bound') or [False] * len(ops))[i]:
+        add('bound-to-rejected-spec:assignment',
+            '%s raised %s, yet the untyped container offered stays bound to the field spec that rejected its content' % (
+                json.dumps(op), s['err']))
       incomplete = kind != 'list' and not partial_allowed and not s['complete']
       bad = (not s['conforms']) or incomplete
       # a violation is attributed to the step that introduces it (the state stays bad afterwards)
